@@ -29,6 +29,9 @@ CTL = "01:145038"
 GWY = "18:006402"
 NULL = "000000B0000000000000000000007FFFFF7000000000"
 T0 = datetime(2023, 1, 1, 0, 0, 0)
+# where the controller's clock stands when the history begins (the packed 0418 time stamp holds a 7-bit year: 2000-2099): the default, the
+# first minute of the century, the evenings before 2032 / 2064 (years that need the 6th / 7th bit), a leap day, the last year
+EPOCHS = (T0, datetime(2000, 1, 1, 0, 0, 1), datetime(2031, 12, 31, 21, 0, 0), datetime(2063, 12, 31, 22, 30, 0), datetime(2024, 2, 28, 20, 0, 0), datetime(2099, 3, 1, 0, 0, 0))
 STATES = {"fault": "00", "restore": "40"}
 TYPES = ("04", "06", "0A", "01")  # battery_low, comms_fault, sensor_error, system_fault
 CLASSES = ("04", "01", "00", "05")
@@ -103,7 +106,7 @@ def run_history(hist: dict) -> list[tuple[dict, str]]:
             out.append(({"clause": clause, **kw}, detail))
 
     model: list[dict] = []
-    clock = [T0]
+    clock = [EPOCHS[hist.get("epoch", 0)]]
 
     def new_entry(state: str, k: int) -> dict:
         clock[0] += timedelta(seconds=1 + (k * 37) % 5000)
@@ -250,9 +253,9 @@ def explore(job: dict) -> dict:
                            st.tuples(st.just("reply"), st.integers(0, 10)), st.tuples(st.just("reply"), st.integers(0, 10)),
                            st.tuples(st.just("reply"), st.integers(0, 16)))
             ops = draw(st.lists(op, min_size=3, max_size=16))
-            return {"initial": initial, "presync": draw(st.integers(0, 3)) == 0, "ops": [list(o) for o in ops]}
+            return {"initial": initial, "presync": draw(st.integers(0, 3)) == 0, "ops": [list(o) for o in ops], "epoch": draw(st.integers(0, len(EPOCHS) - 1))}
         ops = draw(st.lists(op, min_size=1, max_size=40))
-        return {"initial": initial, "presync": draw(st.booleans()), "ops": [list(o) for o in ops]}
+        return {"initial": initial, "presync": draw(st.booleans()), "ops": [list(o) for o in ops], "epoch": draw(st.integers(0, len(EPOCHS) - 1))}
 
     def body(hist: dict) -> None:
         res = run_history(hist)
@@ -277,7 +280,7 @@ async def _stack_history(loop: Any, hist: dict) -> dict:
     gwy, port = await stack.make_gateway(eth, gwy_id=GWY, config={"disable_discovery": True}, schema={CTL: {}, "main_tcs": CTL})
     tcs = gwy.tcs
     model: list[dict] = []
-    clock = [T0]
+    clock = [EPOCHS[hist.get("epoch", 0)]]
     n_rq = [0]
     lost_for_good = [False]
 
@@ -410,7 +413,7 @@ def explore_stack(job: dict) -> dict:
             a = draw(st.integers(1, 10))
             for i in range(a, a + 5):
                 fates[str(i)] = "lose-rp"
-        return {"initial": initial, "ops": [list(o) for o in ops], "fates": fates, "level": "stack"}
+        return {"initial": initial, "ops": [list(o) for o in ops], "fates": fates, "level": "stack", "epoch": draw(st.integers(0, len(EPOCHS) - 1))}
 
     def body(hist: dict) -> None:
         obs, lp = vclock.run(_stack_history, hist)
